@@ -172,4 +172,17 @@ FINDINGS = [
               'extension bit but does not skip the additions of a newer version: 80 ff 02 07 80 01 05 returns 2 instead of 7, so members that follow '
               'such a SEQUENCE are read from the addition octets (source/c/oer.py format_sequence_inner only emits addition code when additions are known)',
          witness=dict(kind='custom', name='oer_c_empty_marker_not_skipped')),
+    dict(key='der-sequence-second-root-list-before-additions', props=['C03'],
+         text='BER/DER SEQUENCE with components after the second extension marker: the second root list is encoded before the extension additions; '
+              'X.690 8.9.2 / 10 require the order of the definition: SEQUENCE { a BOOLEAN, ..., b NULL, ..., c BOOLEAN } (AUTOMATIC TAGS) value '
+              '{a TRUE, b NULL, c FALSE} gives 30 08 8001ff 820100 8100 instead of 30 08 8001ff 8100 820100 (ber.py compile_members collects both '
+              'root lists in one list and encode_content appends the additions)',
+         witness=dict(kind='encode_expect', spec=HDR + 'A ::= SEQUENCE { a BOOLEAN, ..., b NULL, ..., c BOOLEAN }' + END, codec='der', type='A',
+                      value={'a': True, 'b': None, 'c': False}, expected_hex='30088001ff8100820100')),
+    dict(key='automatic-tags-second-root-list-numbered-after-additions', props=['C03'],
+         text='AUTOMATIC TAGS with components after the second extension marker: tags are numbered in textual order (additions before the second '
+              'root list); X.680 24.7-24.9 tag the extension root (both lists) first and the additions after it: SEQUENCE { a BOOLEAN, ..., b NULL, ..., '
+              'c BOOLEAN } value {a TRUE, c FALSE} gives 30 06 8001ff 820100 (c = [2]) instead of 30 06 8001ff 810100 (c = [1], b = [2])',
+         witness=dict(kind='encode_expect', spec=HDR + 'A ::= SEQUENCE { a BOOLEAN, ..., b NULL, ..., c BOOLEAN }' + END, codec='der', type='A',
+                      value={'a': True, 'c': False}, expected_hex='30068001ff810100')),
 ]
